@@ -402,3 +402,36 @@ pub proof fn lemma_clear_headers(l: Seq<Node>, lo: int, hi: int)
 pub proof fn lemma_first_idx_bounds(l: Seq<Node>, val: u32, asc: bool)
   ensures 0 <= first_idx(l, val, asc) <= l.len()
 { lemma_first_idx_props_from(l, val, asc, 0); }
+
+pub proof fn lemma_in_list_insert(l: Seq<Node>, j: int, n: Node)
+  requires 0 <= j <= l.len()
+  ensures forall|b: int| #[trigger] in_list(l.insert(j, n), b) ==> in_list(l, b) || in_node(n, b)
+{
+  let l2 = l.insert(j, n);
+  assert forall|b: int| #[trigger] in_list(l2, b) implies in_list(l, b) || in_node(n, b) by {
+    let k = choose|k: int| 0 <= k < l2.len() && in_node(#[trigger] l2[k], b);
+    lemma_ins_index(l, j - 1, n, k);
+    if k != j { assert(in_node(l[old_idx(j - 1, k)], b)); }
+  }
+}
+
+/// free space only shrinks on the slow path: list' is l.remove(k), optionally plus a node inside old node k
+pub proof fn lemma_slow_free_shrinks(s0: SV, s1: SV, k: int, split: bool, n2: Node, j: int)
+  requires
+    0 <= k < s0.list.len(), s1.allocated == s0.allocated,
+    split ==> 0 <= j <= s0.list.remove(k).len() && s0.list[k].0 as int <= n2.0 as int && node_end(n2) <= node_end(s0.list[k]),
+    s1.list == (if split { s0.list.remove(k).insert(j, n2) } else { s0.list.remove(k) }),
+  ensures free_shrinks(s0, s1)
+{
+  let l = s0.list; let l1 = l.remove(k);
+  lemma_in_list_remove(l, k);
+  if split { lemma_in_list_insert(l1, j, n2); }
+  assert forall|b: int| #[trigger] in_list(s1.list, b) implies in_list(l, b) || b >= s0.allocated by {
+    if split && !in_list(l1, b) { assert(in_node(n2, b)); assert(in_node(l[k], b)); }
+  }
+}
+
+pub proof fn lemma_sum_nonneg(l: Seq<Node>)
+  ensures sum_sizes(l) >= 0
+  decreases l.len()
+{ if l.len() > 0 { lemma_sum_nonneg(l.remove(0)); } }
